@@ -522,6 +522,14 @@ pub proof fn lemma_phi_end(ms: Seq<MatchResult>, pools: Map<Seq<char>, Section10
     isum_zero(txs.len() as int, f_claim(fc, txs, offs, t));
 }
 
+
+/// shares of the sold security that earlier disposals have already matched against purchases still to come, in the
+/// units current at line sell_idx (they are still in the pool but no longer the seller's to sell): C05
+pub open spec fn f_pending(fc: Map<usize, Decimal>, txs: Seq<GbpTransaction>, sell_idx: int) -> spec_fn(int) -> real {
+    |k: int| if sell_idx < k < txs.len() && txs[k].operation is Buy && txs[k].ticker@ == txs[sell_idx].ticker@ { fc_get(fc, k as usize) / split_factor(txs, sell_idx, k) } else { 0real }
+}
+pub open spec fn pending_claims(fc: Map<usize, Decimal>, txs: Seq<GbpTransaction>, sell_idx: int) -> real { isum(txs.len() as int, f_pending(fc, txs, sell_idx)) }
+
 // ---------- proceeds ----------
 /// C04.pro_rata: the share of the day's sale attributed to a leg of q out of Q shares
 pub open spec fn pro_rata_gross(q: real, price: real) -> real { q * price }
